@@ -352,7 +352,9 @@ def run_check(args):
         elif mode == 'oserror-sweep':
             expect = list(camp.get('only_calls') or ['mkdir', 'gzwrite'])
             if expect == ['@cache']:
-                expect = ['rename', 'gzopen_w', 'gzwrite', 'gzclose']
+                # (the old cache file may be moved aside with rename or with
+                # replace: not part of the reach guard)
+                expect = ['gzopen_w', 'gzwrite', 'gzclose']
             if camp.get('torn', True) is False:
                 expect = [e for e in expect if not e.startswith('gz')]
         elif camp['profile'] == 'C15':
